@@ -273,7 +273,7 @@ def vc_declare_block(bn, vcs, rnd1=None):
     global vc_ctx, vc_ctr
     
     def ensure_single(x):
-        if len(x.lc.sig)==1: return x
+        if len(x.lc.sig)==1 and x.lc.sig[0][0]==1: return x
             
         ret = runtime.PrivVal(x.value)
         ret.assert_eq(x)
